@@ -39,6 +39,15 @@ def main():
     xml = xml.replace('<weld body1', '<weld body1').replace('weld body1="' , 'weld body1="')
     if "<weld" in xml:
       xml = xml.replace(' anchor="0 0 0"/></equality>', "/></equality>")
+    if c % 3 == 2:
+      # explicit contact pairs whose condim EXCEEDS every geom's condim (the per-contact row table contact.efc_address is sized from the
+      # largest contact dimension of geoms, pairs and flexes alike, by put_model, put_data AND make_data), low geom condims
+      import re as _re
+      gn = _re.findall(r'<geom name="(g[^"]*)"', xml)
+      xml = _re.sub(r'<geom name="g', lambda mo: f'<geom condim="{int(rng.choice([1, 3]))}" name="g', xml)
+      prs = "".join(f'<pair geom1="floor" geom2="{g}" condim="{int(rng.choice([4, 6]))}"/>' for g in gn[:3])
+      if prs:
+        xml = xml.replace("</mujoco>", f"<contact>{prs}</contact></mujoco>")
     if sleep:
       xml = xml.replace("<option ", '<option><flag sleep="enable"/></option>\n  <option ')
     if c == 1:
@@ -49,6 +58,14 @@ def main():
              '<flexcomp name="top" type="grid" count="3 3 1" spacing=".04 .04 .04" pos="0 0 .027" radius=".01" dim="2" mass=".2"><contact selfcollide="none"/></flexcomp>'
              '<flexcomp name="bot" type="grid" count="3 3 1" spacing=".04 .04 .04" pos="0 0 .009" radius=".01" dim="2" mass=".2"><contact selfcollide="none"/></flexcomp>'
              '</worldbody></mujoco>')
+    if c == 2:
+      # forced every run: explicit pairs with a larger contact dimension than any geom (condim 6 vs 3/1), both balls in contact, Data from
+      # make_data (c is even -> also once through put_data in case 8 of longer runs); exact-fit contact capacity below
+      sleep, jac = False, ""
+      xml = ('<mujoco><option timestep="0.004"' + cone + '/><worldbody><geom name="floor" type="plane" size="3 3 .1" condim="3"/>'
+             '<body pos="0 0 .09"><freejoint/><geom name="ga" size=".1" condim="1"/></body><body pos=".5 0 .09"><freejoint/><geom name="gb" size=".1" condim="3"/></body>'
+             '<body pos="1 0 .09"><freejoint/><geom name="gc" size=".1"/></body></worldbody>'
+             '<contact><pair geom1="floor" geom2="ga" condim="6"/><pair geom1="gb" geom2="floor" condim="6"/></contact></mujoco>')
     try:
       mjm = mujoco.MjModel.from_xml_string(xml)
     except ValueError:
@@ -57,7 +74,7 @@ def main():
     models.random_state(rng, mjm, mjd, qpos_scale=0.3, qvel_scale=1.0, unnormalized=True)
     for j in range(mjm.njnt):
       if mjm.jnt_type[j] == 0:
-        mjd.qpos[mjm.jnt_qposadr[j] + 2] = rng.uniform(0.0, 0.4)
+        mjd.qpos[mjm.jnt_qposadr[j] + 2] = rng.uniform(0.0, 0.4) if c != 2 else 0.09
     mujoco.mj_forward(mjm, mjd)
     need_con, need_efc = int(mjd.ncon), int(mjd.nefc)
     nworld = int(rng.integers(1, 4))
@@ -69,6 +86,8 @@ def main():
       caps = dict(naconmax=need_con * nworld, njmax=need_efc)   # exact fit
     elif mode == 2:
       caps = dict(njmax=max(need_efc - 1, 0))
+    if c == 2:
+      caps = dict(naconmax=need_con * nworld, njmax=need_efc)   # exact fit: an out-of-range column of the last contact leaves the allocation
     if c == 0:
       # regression (fix b83d10e): sleeping enabled and NO constraint capacity — the compact solver must not be entered
       caps = dict(njmax=0)
@@ -83,7 +102,13 @@ def main():
     status = "ok"
     try:
       m = mjw.put_model(mjm)
-      d = mjw.put_data(mjm, mjd, nworld=nworld, **caps)
+      if c % 2 == 0 and c != 2:
+        d = mjw.put_data(mjm, mjd, nworld=nworld, **caps)
+      else:
+        # the other way to get a Data: make_data sizes every table itself
+        d = mjw.make_data(mjm, nworld=nworld, **caps)
+        d.qpos.assign(np.tile(mjd.qpos.astype(np.float32), (nworld, 1)))
+        d.qvel.assign(np.tile(mjd.qvel.astype(np.float32), (nworld, 1)))
       for _ in range(2):
         mjw.step(m, d)
       mjw.forward(m, d)
